@@ -73,9 +73,11 @@ def _same_maze(a, b):
     return None
 
 
-def _roundtrip(maze, tokspec, form):
+def _roundtrip(maze, tokspec, form, box=None):
     tok = _tok(tokspec)
     toks = maze.as_tokens(tok)
+    if box is not None:
+        box["tokens"] = list(toks) if isinstance(toks, list) else toks
     if not isinstance(toks, list) or not all(isinstance(x, str) for x in toks):
         return f"as_tokens returned {type(toks).__name__}, not a list of strings"
     arg = " ".join(toks) if form == "str" else list(toks)
@@ -97,11 +99,21 @@ def _run_roundtrip(job):
     def run(ctx, pinned=None):
         with T.TokEnv(reps_only=job.get("reps", False), linked=job.get("linked", False)):
             maze, lat, ends = T.build_sym_maze(ctx, job["maze"])
-            msg = _roundtrip(maze, job["tok"], job["form"])
+            box = {}
+            msg = _roundtrip(maze, job["tok"], job["form"], box)
+        if msg is None:
+            core.validate_path(ctx, box["tokens"], lambda inp: _real_tokens(job, inp), every=job.get("validate_every", 6), what="as_tokens")
         ctx.notes["msg"] = msg
         return [("from_tokens(as_tokens(maze)) is the same maze (kind, connections, start, end, solution)", z3.BoolVal(msg is None))]
 
     return run
+
+
+def _real_tokens(job, inputs):
+    """the same tokenization by the unpatched code (real numpy, the path's RNG draws scripted)"""
+    maze = T.build_concrete_maze(inputs, job["maze"])
+    with T.TokEnv(script=inputs, reps_only=job.get("reps", False), linked=job.get("linked", False)):
+        return maze.as_tokens(_tok(job["tok"]))
 
 
 def _replay_roundtrip(job, inputs, notes):
@@ -469,7 +481,7 @@ HARNESSES = {
     "roundtrip": dict(run=_run_roundtrip, replay=_replay_roundtrip, patch=_P),
     "agree": dict(run=_run_agree, replay=_replay_agree, patch=_P),
     "dataset": dict(run=_run_dataset, replay=_replay_dataset, patch=_P),
-    "lemma": dict(run=_run_lemma, replay=_replay_lemma, patch=_P),
+    "lemma": dict(run=_run_lemma, replay=_replay_lemma, patch=_P, validate_every=0),
 }
 
 MANIFEST = dict(engine="symx+crosshair")
